@@ -98,8 +98,7 @@ def level2(ck, beh, quick, seed):
         p = project(b, bi)
         if p is not None:
             proj.append(p)
-    if quick:
-        proj = proj[:150]
+    proj = proj[:150] if quick else proj[:1500]
     sched = made_e2e() + proj
     bpath = os.path.join(wd, "behaviours_e2e.ndjson")
     vlib.write_ndjson(bpath, sched)
